@@ -206,6 +206,23 @@ def make_timetree(t, dates, heights):
     return TimeTreeModel("tree", tree, taxa, Parameter("h", ht))
 
 
+def heights_param(model):
+    """the parameter object a tree model evaluates (public constructor argument; stored privately): found by its
+    conventional name or, after a rename, as the AbstractParameter among the model's attributes"""
+    from torchtree.core.abstractparameter import AbstractParameter
+
+    p = getattr(model, "_internal_heights", None)
+    if isinstance(p, AbstractParameter):
+        return p
+    cands = [v for v in vars(model).values() if isinstance(v, AbstractParameter)]
+    if not cands:
+        params = getattr(model, "_parameters", None)
+        cands = list(params.values()) if isinstance(params, dict) else []
+    if len(cands) >= 1:
+        return cands[0]
+    raise AttributeError("no parameter found on the tree model")
+
+
 def dendropy_edges(model):
     """(parent index, child index) for every edge, read from the dendropy tree itself"""
     return [(nd.parent_node.index, nd.index) for nd in model.tree.preorder_node_iter() if nd.parent_node is not None]
